@@ -17,6 +17,8 @@ def _pick(lst, n, rng):
         return list(lst)
     return rng.sample(lst, n)
 
+THOROUGH_SEEDS = 1
+
 
 def cases(tier, seed):
     rng = random.Random(seed)
